@@ -259,6 +259,8 @@ def _finish(st, stats, subs, out_path, t0):
         + [s['name'] for s in subs[len(st.subs_done):]][:20] if verdict != 'refuted' else [],
         'heaviest': sorted(({'name': d['name'], 'paths': d.get('paths'), 'cpu_s': d.get('cpu_s')} for d in st.subs_done
                             if d.get('cpu_s') is not None), key=lambda d: -d['cpu_s'])[:3],
+        'analysis_stats': [{'name': d['name'], 'verdict': d.get('verdict'), 'paths': d.get('paths'), 'cpu_s': d.get('cpu_s')}
+                           for d in st.subs_done],
         'paths': st.paths, 'ok_paths': st.ok_paths, 'truncated': st.truncated, 'aborted': st.aborted,
         'abort_samples': st.abort_samples,
         'goal_counts': dict(st.goal_counts), 'nontrivial_paths': st.nontrivial,
